@@ -895,10 +895,13 @@ class Crate:
         self.facts = facts
         self.kind = facts["crate_type"]
         self.inlined_helpers = []
+        self.renamed = facts.get("_renamed", {})
         if os.environ.get("VERIF_INLINE", "1") != "0" and not facts.get("_inlined"):
             from . import inline
             base = inline.load_baseline()
             if base is not None:
+                self.renamed = inline.undo_renames(facts, base.get(self.kind), base.get(self.kind + "_sig"))
+                facts["_renamed"] = self.renamed
                 self.inlined_helpers = inline.inline_crate(facts, base.get(self.kind), base.get(self.kind + "_comb"))
                 facts["_inlined"] = True
                 facts["_inlined_helpers"] = self.inlined_helpers
